@@ -52,6 +52,7 @@ def expr_of(line, mode):
 
 
 def run(chk):
+    interaction_stream(chk)          # correspondence on the interaction corpus (tools/orch/interact.py)
     rng = random.Random(chk.seed)
     maxn = 3 if chk.tier == 'quick' else 4
     chk.rule = ('flat: every ordered pair, triple%s of the 19 binary operators over distinct operands (exhaustive), through Parser::expression and through parse_source; '
